@@ -14,7 +14,13 @@ LEAN_MODULES = ["BaizeVerif.Props.C15"]
 MODEL_MODULES = ["BaizeVerif.Model.Multipart"]
 DRIVER_OPS = {"mp_stream": "Multipart.runStream", "mp_astream": "Multipart.runStream"}
 GEN_MODULES = ["c01"]
-THEOREMS = ["Baize.Multipart.limits_pinned"]
+THEOREMS = [
+    "Baize.Multipart.limits_pinned",
+    "Baize.Multipart.limit_exact",
+    "Baize.Multipart.memExceeded_iff",
+    "Baize.Multipart.holdback_bound",
+    "Baize.Multipart.streaming_buffer_bound",
+]
 MANIFEST = {
     "technique": "Lean 4 proof (hold-back bound for arbitrary bytes, limit exactness by induction over events) + "
                  "differential correspondence incl. the decoder's buffer length after every chunk",
@@ -37,7 +43,10 @@ RULE = ("corpus; random forms x (max_form_parts, max_form_memory_size) in {total
         "non-trivial = a limit within 1 of the exact total, or a content of >= 256 bytes")
 TRUSTED = ["the recording subclass observes len(decoder.buffer) exactly where the helper's loop waits for data"]
 ASSUMPTIONS = ["same as C01"]
-PARTIAL = "proofs in progress: only the source pins are proved so far; the chunking-independence theorems are being added"
+PARTIAL = ("the buffering bound is proved for the DATA state (part contents) for arbitrary input; a preamble or an "
+           "unfinished part-header block is buffered until its terminator arrives (not bounded by the theorem); "
+           "'rejected as it arrives' (number of chunks consumed before the 413) is checked by the oracle on the "
+           "real code, not proved")
 
 
 def oracle(line, out):
